@@ -10,6 +10,20 @@ BASELINE_OFF = ("cd /repo && env -u CNES_PANDORA_VERIF /venv/bin/python -m pytes
 
 # id -> (technique, level text, level note, design ref)
 CLAIMED = {
+    "C04": (
+        "Hypothesis-generated pairs and legal pipelines with per-step snapshots (invariant over the step history) vs. a three-zone reference of the flag causes",
+        "Exploration: generated pairs with masks and no-data next to borders and partial-range zones, scalar intervals "
+        "and grids, windows 1/3/5, invalid_disparity NaN / -9999, legal pipelines with repeated refinement / filter / "
+        "validation (with filling), confidence steps and median_for_intervals. After every step harness-side wrappers "
+        "snapshot flags, disparities and the all-NaN pattern on the left and (with validation) right side. Judged: "
+        "each of bits 0,1,6 equals its documented cause, bits 2/7 by three-zone rules, no other bit after matching "
+        "cost; invalid flag <=> all costs NaN <=> disparity is the invalid value, at every step before validation; "
+        "borders carry bit 0 only; each later step changes only its own documented bits and clears none; never a "
+        "bit >= 4096, never bits 8 and 9 together.",
+        "Trusted: ref_bits() in pbt/props/c04.py (written from output.rst and the property). Bit 11 on border pixels "
+        "after interval regularisation is tolerated (own bit of that step).",
+        "DESIGN.md §5 C04",
+    ),
     "C19": (
         "Round trip through the command-line entry: in-memory products -> written rasters -> read back; saved configuration -> replay (differential)",
         "Exploration: generated accepted configurations on harness-written GeoTIFFs (pipelines with/without "
